@@ -4,7 +4,7 @@
 //! the facts the comparison needs are printed.  Facts are computed here from the typed IR, independently of the
 //! exporter: which globals are threaded, which function (transitively) needs which of them, which parameters are
 //! out / inout, how many parameters have defaults.
-//! Output: M2 ;; threaded g,.. ;; fn <name> req=g,.. outs=i:kind,.. defaults=n params=n method=0|1 called=0|1 shadow=m:name,l:name ;; ... ;; HLSL <text> ;; MSL <text>
+//! Output: M2 ;; threaded g,.. ;; fn <name> req=g,.. outs=i:kind,.. defaults=n params=n method=0|1 called=0|1 shadow=m:name,l:name,d:name,g:name ;; ... ;; HLSL <text> ;; MSL <text>
 //!         | SKIP <why>
 use crate::common::*;
 use rssl::ir;
@@ -118,6 +118,17 @@ pub fn facts(m: &ir::Module) -> Result<Vec<String>, String> {
         let mut locals: Vec<ir::VariableId> = imp.params.iter().map(|p| p.id).collect();
         locals_of_block(&imp.scope_block, &mut locals);
         for v in locals { let n = mn.get_name_leaf(NameSymbol::LocalVariable(v)).to_string(); if req_names.contains(&n) { shadow.push(format!("l:{}", n)); } }
+        // two added parameters of one name (d:), and a global the body names itself - a constant, which is not threaded -
+        // whose name an added parameter takes (g:)
+        for (i, a) in req_names.iter().enumerate() { if req_names[..i].contains(a) { shadow.push(format!("d:{}", a)); } }
+        if let Some((g, _)) = direct.get(&fid.0) {
+            for x in g {
+                if !req.contains(x) {
+                    let n = mn.get_name_leaf(NameSymbol::GlobalVariable(ir::GlobalId(*x))).to_string();
+                    if req_names.contains(&n) { shadow.push(format!("g:{}", n)); }
+                }
+            }
+        }
         shadow.sort(); shadow.dedup();
         out.push(format!("fn {} req={} outs={} defaults={} params={} method={} called={} shadow={}", h,
             req.iter().map(|g| hn.get_name_leaf(NameSymbol::GlobalVariable(ir::GlobalId(*g))).to_string()).collect::<Vec<_>>().join(","),
